@@ -247,7 +247,8 @@ def r4_one_line(prog, rep: Report, csvr: Cls, jsonr: Cls):
               scenario="with indent=2 the record occupies several lines: the line-indexed record file is corrupted")
     cs = prog.method(csvr, "save")
     rep.fn(cs)
-    ok = all(isinstance(r.value, ast.Call) and src(r.value.func).endswith("_dict_to_string") and [src(a) for a in r.value.args] == ["asdict(self)"]
+    _w, wf, _r, _rf = _csv_calls(prog, csvr)
+    ok = all(isinstance(r.value, ast.Call) and (wf is not None and src(r.value.func).endswith("." + wf.name)) and [src(a) for a in r.value.args] == ["asdict(self)"]
              for r in returns_of(cs.node)) and bool(returns_of(cs.node))
     rep.check("C13.R4", cs, "csv-one-row", ok, "returns _dict_to_string(asdict(self))", "CSVRecord.save does not return the single written row",
               scenario="save() returns something the loader cannot parse back")
@@ -270,27 +271,27 @@ def r5_record_layer(prog, rep: Report):
              "concrete class; mutable variants store r.save() (C12.R2)", floor=4)
     fam = Family(prog)
     base = prog.cls("BaseRecordFile", FILES_MOD)
-    gi = prog.method(base, "_get_item")
+    gi = prog.method(base, fam.item_getter)
     rep.fn(gi)
     n = gi.params[1]
     ok = False
     raw_var = None
     for st in walk_own(gi.node):
         if isinstance(st, ast.Assign) and isinstance(st.value, ast.Call) and isinstance(st.value.func, ast.Attribute) \
-                and st.value.func.attr == "_get_item" and isinstance(st.value.func.value, ast.Call) and src(st.value.func.value.func) == "super" \
+                and st.value.func.attr == fam.item_getter and isinstance(st.value.func.value, ast.Call) and src(st.value.func.value.func) == "super" \
                 and [src(a) for a in st.value.args] == [n] and isinstance(st.targets[0], ast.Name):
             raw_var = st.targets[0].id
     for r in returns_of(gi.node):
         v = r.value
-        if isinstance(v, ast.Call) and src(v.func) == f"{gi.self_name}.record_class.load" and [src(a) for a in v.args] in ([raw_var], [f"super()._get_item({n})"]):
+        if isinstance(v, ast.Call) and src(v.func) == f"{gi.self_name}.record_class.load" and [src(a) for a in v.args] in ([raw_var], [f"super().{fam.item_getter}({n})"]):
             ok = True
     rep.check("C13.R5", gi, "load-of-raw", ok, "returns self.record_class.load(super()._get_item(n))",
               "the record layer does not return record_class.load(<raw line n of the next class>)",
               scenario="record files return raw strings, or load the wrong line")
     rec_classes = [c for c in fam.line_classes if base in (c.mro or [])]
     for c in rec_classes:
-        g = prog.resolve(c, "_get_item")
-        nxt = prog.resolve(c, "_get_item", after=base)
+        g = prog.resolve(c, fam.item_getter)
+        nxt = prog.resolve(c, fam.item_getter, after=base)
         rep.check("C13.R5", (c.relpath, c.short, c.node.lineno), "mro", g is gi and nxt is not None and nxt.cls is not base,
                   f"{c.short}._get_item -> {gi.short} -> {nxt.short if nxt else '?'}",
                   f"{c.short}: the record layer is not the first _get_item in the MRO (raw lines would be returned), or no raw reader follows it",
@@ -298,7 +299,8 @@ def r5_record_layer(prog, rep: Report):
     from .c12 import writer_content_ok, record_save_check
     from .c11 import _lines_field
     mut = prog.cls("BaseMutableRandomLineAccessFile", FILES_MOD)
-    w = prog.method(mut, "_save_from_iter")
+    from .c12 import writer_method
+    w = writer_method(prog, mut)
     rep.fn(w)
     record_save_check(prog, rep, "C13.R5", prog.cls("BaseMutableRecordFile", FILES_MOD), w, _lines_field(prog, fam))
     for lp in [n for n in walk_own(w.node) if isinstance(n, ast.For)]:
